@@ -7,20 +7,37 @@ Top(A, L0, L1, B) can be built directly with any class at any position, so
 from pymtl3 import *
 
 
+def add_lb(s):
+  """every leaf also has a loop-back pair: the parent connects lb_out of a child back to lb_in of the SAME child"""
+  s.lb_in = InPort(Bits4)
+  s.lb_out = OutPort(Bits4)
+  s.lb_seen = OutPort(Bits4)
+
+  @update
+  def up_lb_out():
+    s.lb_out @= s.in_ + 7
+
+  @update
+  def up_lb_seen():
+    s.lb_seen @= s.lb_in ^ 1
+
+
 class Pass(Component):
-  def construct(s):
+  def construct(s, inc=1):
     s.in_ = InPort(Bits4)
     s.out = OutPort(Bits4)
+    add_lb(s)
 
     @update
     def up_pass():
-      s.out @= s.in_ + 1
+      s.out @= s.in_ + inc
 
 
 class Reg(Component):
   def construct(s):
     s.in_ = InPort(Bits4)
     s.out = OutPort(Bits4)
+    add_lb(s)
 
     @update_ff
     def ff_reg():
@@ -43,6 +60,7 @@ class Nest(Component):
   def construct(s):
     s.in_ = InPort(Bits4)
     s.out = OutPort(Bits4)
+    add_lb(s)
     s.inner = Inner()
     s.t = Wire(Bits4)
     s.inner.x //= s.in_
@@ -68,6 +86,7 @@ class Con(Component):
   def construct(s):
     s.in_ = InPort(Bits4)
     s.out = OutPort(Bits4)
+    add_lb(s)
     s.m = Wire(Bits4)
     s.n = Wire(Bits4)
 
@@ -93,6 +112,7 @@ class Lam(Component):
   def construct(s):
     s.in_ = InPort(Bits4)
     s.out = OutPort(Bits4)
+    add_lb(s)
     s.h = Wire(Bits4)
     s.h //= lambda: s.in_ + 3
     s.out //= lambda: s.h ^ 6
@@ -103,6 +123,7 @@ class Sl(Component):
   def construct(s):
     s.in_ = InPort(Bits4)
     s.out = OutPort(Bits4)
+    add_lb(s)
 
     @update
     def up_sl():
@@ -128,6 +149,7 @@ class CL(Component):
   def construct(s):
     s.in_ = InPort(Bits4)
     s.out = OutPort(Bits4)
+    add_lb(s)
     s.ctr = Counter()
     s.acc = Wire(Bits4)
 
@@ -157,6 +179,7 @@ class MNet(Component):
   def construct(s):
     s.in_ = InPort(Bits4)
     s.out = OutPort(Bits4)
+    add_lb(s)
     s.scale = Scale()
     s.call = CallerPort()
     s.call //= s.scale.mul3
@@ -178,6 +201,9 @@ class Mid(Component):
     s.bl = [M0(), Pass()]              # a component list that is NOT directly under the top
     s.bl[0].in_ //= s.b.out
     s.bl[1].in_ //= s.bl[0].out
+    s.lb_o = OutPort(Bits4)
+    s.bl[0].lb_in //= s.bl[0].lb_out       # loop-back on a list element below a non-top parent
+    s.lb_o //= s.bl[0].lb_seen
 
     @update
     def up_mid():
@@ -190,6 +216,10 @@ class Top(Component):
     s.out = OutPort(Bits4)
     s.o2 = OutPort(Bits4)
     s.o3 = OutPort(Bits2)
+    s.o4 = OutPort(Bits4)
+    s.o5 = OutPort(Bits4)
+    s.o6 = OutPort(Bits4)
+    s.o7 = OutPort(Bits4)
     s.a = A()
     s.l = [L0(), L1()]
     s.mid = Mid(B, M0)
@@ -217,6 +247,20 @@ class Top(Component):
 
     s.add_constraints(U(up_w) < U(up_o2))
 
+    s.a.lb_in //= s.a.lb_out               # loop-back connections made in the parent between two ports of ONE child
+    s.l[1].lb_in //= s.l[1].lb_out
+    s.o4 //= s.a.lb_seen
+
+    @update
+    def up_deep():
+      s.o5 @= s.mid.b.out ^ s.l[1].lb_seen  # the top reads an out port two levels down
+
+    s.o6 //= s.mid.lb_o
+
+    @update
+    def up_slices():
+      s.o7 @= concat(s.a.out[1:3], s.l[0].out[3:4], s.mid.b.lb_seen[0])   # slices of child ports that occur ONLY in this block
+
 
 POSITIONS = ("a", "l0", "l1", "b", "m0")
 
@@ -224,7 +268,13 @@ POSITIONS = ("a", "l0", "l1", "b", "m0")
 def build(cfg):
   """cfg: dict position -> class name"""
   c = {p: CATALOG[cfg[p]] for p in POSITIONS}
-  return Top(c["a"], c["l0"], c["l1"], c["b"], c["m0"])
+  top = Top(c["a"], c["l0"], c["l1"], c["b"], c["m0"])
+  # a construct parameter given through the parameter tree to a sibling (never replaced) of the list position m0:
+  # the parent of a replaced list element then has parameter-tree children to walk
+  top.set_param("top.mid.bl[1].construct", inc=1)
+  # ... and an entry that names the replaced list position itself (a hook nobody consumes, so every class accepts it)
+  top.set_param("top.mid.bl[0].user_hint", note=1)
+  return top
 
 
 def locate(top, pos):
